@@ -70,6 +70,7 @@ func (c04) Generate(r *core.Rng, run int, tier string) *core.History {
 	flags.SameTextClosures = false
 	flags.RedefineLeafOnly = true
 	flags.NoIndexAssign = true // a cached large container mutated in place is C06's recorded aliasing finding, not a cache defect
+	flags.SmallArraysInFuncs = true // same territory: a cached array of more than 8 elements shares spare capacity between the + results of its callers
 	flags.Redefine = r.Bool(.5)
 	flags.NonDet = r.Bool(.6)
 	flags.PrintInFuncs = r.Bool(.8)
